@@ -227,6 +227,30 @@ func simultaneousFirstOpens(c *ctx) string {
 		var wg sync.WaitGroup
 		errs := make(chan string, g)
 		q := randVec(c, dims)
+		// the filter-capable callers search with a partial eligible set; the answer is the one a
+		// freshly opened copy gives to the same search made alone
+		var eligible []uint64
+		for d := uint64(0); d < 40; d++ {
+			if (d+uint64(r))%3 != 0 {
+				eligible = append(eligible, d)
+			}
+		}
+		wantKey := ""
+		{
+			fs, err := zh.Plugin.Open(path)
+			if err != nil {
+				seg.Close()
+				return "open failed: " + err.Error()
+			}
+			want, bad := runSearch(fs.(segment.VectorSegment), "vec", q, 5, nil, true, eligible, true)
+			fs.Close()
+			if bad != "" {
+				seg.Close()
+				return "reference search: " + bad
+			}
+			wantKey = hitKey(want)
+			waitLive(baseLive)
+		}
 		for j := 0; j < g; j++ {
 			wg.Add(1)
 			go func(j int) {
@@ -244,7 +268,15 @@ func simultaneousFirstOpens(c *ctx) string {
 					errs <- err.Error()
 					return
 				}
-				if _, bad := searchHandle(vi, q, 3, nil, false); bad != "" {
+				if j%2 == 0 {
+					got, bad := searchHandle(vi, q, 5, eligible, true)
+					if bad == "" && hitKey(got) != wantKey {
+						bad = fmt.Sprintf("a filtered search (27 of 40 documents eligible, k=5) made by one of the simultaneous first users returns %v, the same search made alone on a freshly opened copy returns %s", got, wantKey)
+					}
+					if bad != "" {
+						errs <- bad
+					}
+				} else if _, bad := searchHandle(vi, q, 3, nil, false); bad != "" {
 					errs <- bad
 				}
 				vi.Close()
@@ -492,6 +524,85 @@ func pinnedAcrossIdlePasses(c *ctx) string {
 				}
 			}
 		}
+	}
+	return ""
+}
+
+// C16: expiry passes running back to back on one goroutine while another opens, searches and closes
+// a handle in a loop (the entry is evicted and re-created thousands of times; an open may fall
+// between a pass's decision and its eviction).  Every search must give the answer of a fresh copy;
+// no index may be used after its release, released twice, or left over.
+func expiryRace(c *ctx) string {
+	const nd, dims = 24, 3
+	var b zh.Batch
+	for d := 0; d < nd; d++ {
+		b = append(b, zh.Doc{Fields: []zh.Field{zh.IDField(fmt.Sprintf("E%04d", d)),
+			{Name: "vec", Typ: 'v', Vec: &zh.VecDef{Dims: dims, Sim: "l2_norm", Opt: "recall", Data: randVec(c, dims)}}}})
+	}
+	sb, _, err := zh.Build(b, 1026)
+	if err != nil {
+		return "build failed: " + err.Error()
+	}
+	path := zh.TmpPath("c16e")
+	if err := zap.PersistSegmentBase(sb, path); err != nil {
+		return "persist failed: " + err.Error()
+	}
+	sb.Close()
+	defer os.Remove(path)
+	q := randVec(c, dims)
+	fs, err := zh.Plugin.Open(path)
+	if err != nil {
+		return "open failed: " + err.Error()
+	}
+	want, bad := runSearch(fs.(segment.VectorSegment), "vec", q, 5, nil, true, nil, false)
+	fs.Close()
+	if bad != "" {
+		return "reference search: " + bad
+	}
+	waitLive(0)
+	baseLive, baseDbl, baseUac := engineCounters()
+	s, err := zh.Plugin.Open(path)
+	if err != nil {
+		return "open failed: " + err.Error()
+	}
+	seg := s.(*zap.Segment)
+	stop := make(chan struct{})
+	var wg sync.WaitGroup
+	wg.Add(1)
+	go func() {
+		defer wg.Done()
+		defer func() { recover() }()
+		for {
+			select {
+			case <-stop:
+				return
+			default:
+				zap.VerifVectorCacheTick(&seg.SegmentBase)
+			}
+		}
+	}()
+	iters := c.n(4000, 60000)
+	for i := 0; i < iters && bad == ""; i++ {
+		var got []vhit
+		got, bad = runSearch(seg, "vec", q, 5, nil, true, nil, false)
+		if bad == "" && hitKey(got) != hitKey(want) {
+			bad = fmt.Sprintf("search %d returns %v, a freshly opened copy returns %v", i, got, want)
+		}
+		if _, dbl, uac := engineCounters(); bad == "" && (dbl != baseDbl || uac != baseUac) {
+			bad = fmt.Sprintf("after search %d: %d double closes, %d uses of a released index", i, dbl-baseDbl, uac-baseUac)
+		}
+	}
+	close(stop)
+	wg.Wait()
+	seg.Close()
+	live := waitLive(baseLive)
+	_, dbl, uac := engineCounters()
+	c.CountN("searches_racing_with_expiry_passes", iters)
+	if bad == "" && (live != baseLive || dbl != baseDbl || uac != baseUac) {
+		bad = fmt.Sprintf("after closing the segment: %d native indexes live, %d double closes, %d uses after release", live-baseLive, dbl-baseDbl, uac-baseUac)
+	}
+	if bad != "" {
+		return "expiry passes running back to back on one goroutine while another opens the field, searches and closes the handle in a loop\n" + bad
 	}
 	return ""
 }
